@@ -114,6 +114,13 @@ func lineToken(s string) string {
 	if i, ok := psAddrI[s]; ok {
 		return "b" + strconv.Itoa(i)
 	}
+	if k := strings.LastIndex(s, "/p2p/"); k >= 0 && s[:k] == longAddr {
+		if pid, err := peer.Decode(s[k+5:]); err == nil {
+			if p, ok := psIdx[pid]; ok {
+				return fmt.Sprintf("f%dp%d", longAddrIdx, p)
+			}
+		}
+	}
 	if k := strings.LastIndex(s, "/p2p/"); k >= 0 {
 		a, okA := psAddrI[s[:k]]
 		pid, err := peer.Decode(s[k+5:])
@@ -291,6 +298,11 @@ func (c fileCase) input() string {
 // a line of exactly 64 KiB that starts like an address
 var longLine = "/ip4/" + strings.Repeat("1", 64*1024-5)
 
+// address index 99 (psfile lines only): a VALID transport address whose text is longer than 64 KiB
+const longAddrIdx = 99
+
+var longAddr = "/dns4/" + strings.Repeat("a", 70000) + ".example.org/tcp/9096"
+
 func lineText(tok string) (string, bool) {
 	if tok == "E" {
 		return "", true
@@ -323,6 +335,9 @@ func lineText(tok string) (string, bool) {
 		}
 		a, e1 := strconv.Atoi(x[0])
 		p, e2 := strconv.Atoi(x[1])
+		if e1 == nil && e2 == nil && a == longAddrIdx && p >= 0 && p < nPs {
+			return longAddr + "/p2p/" + peer.Encode(psTab[p]), true
+		}
 		if e1 != nil || e2 != nil || a < 0 || a >= len(psAddrs) || p < 0 || p >= nPs {
 			return "", false
 		}
@@ -484,6 +499,9 @@ func genFileCase(r *common.Rng, k, total int) fileCase {
 			continue
 		}
 		peers = append(peers, p)
+		if r.Chance(1, 40) {
+			c.lines = append(c.lines, fmt.Sprintf("f%dp%d", longAddrIdx, p))
+		}
 		for _, a := range pick(r, 0, len(psAddrs), r.Range(1, 3)) {
 			c.lines = append(c.lines, fmt.Sprintf("f%dp%d", a, p))
 			if r.Chance(badPct, 200) {
